@@ -3,7 +3,9 @@
 Proof: coq/Props/C20.v (ordered map and trie refine an association list for every history, key
 equality is an equivalence). Tie: the real alias_trie with the parser's real key predicates
 (verif hook) and the extracted model run the same histories; a Python association list (the
-specification) judges every answer of the implementation directly."""
+specification) judges every answer of the implementation directly. Histories contain forks: Y copies
+the trie (generic instantiation), Puts (unconditional Inserts) and Declares hit the copy, Z returns
+to the original, which must answer as if the fork had never happened."""
 import itertools
 import os
 import re
@@ -106,29 +108,77 @@ def vocab_lines(toks, ranks=None):
 
 
 # ---- specification oracle -------------------------------------------------------------------
-def spec_run(toks, hist):
-    """association list keyed by token sequences; returns expected output lines (None for Search)"""
+def opkeys(op):
+    """token indices an operation talks about"""
+    if op[0] in ("D", "P"):
+        return op[2]
+    if op[0] in ("L", "S"):
+        return op[1]
+    return []
+
+
+def spec_run(toks, hist, stats=None):
+    """association list keyed by token sequences; returns expected output lines (None for Search).
+    Fork isolation is modelled here independently of the Coq model: Y pushes the current list and continues on a
+    copy of it, Z throws the copy away and pops (no open fork: no-op); P (Put) replaces the value of an equal key
+    or adds the pair."""
     out = []
     store = []
+    stack = []
+    closed_forks = 0
+
+    def same(k0, ks):
+        return len(k0) == len(ks) and all(py_tok_eq(x, y) for x, y in zip(k0, ks))
+
+    def find(st, ks):
+        for k0, v in st:
+            if same(k0, ks):
+                return v
+        return None
+
     for op in hist:
         if op[0] == "Y":
+            stack.append(store)
+            store = list(store)
             out.append("Y")
             continue
-        ks = [toks[i] for i in op[2]] if op[0] == "D" else [toks[i] for i in op[1]]
-        def find():
-            for k0, v in store:
-                if len(k0) == len(ks) and all(py_tok_eq(x, y) for x, y in zip(k0, ks)):
-                    return v
-            return None
+        if op[0] == "Z":
+            if stack:
+                store = stack.pop()
+                closed_forks += 1
+            out.append("Z")
+            continue
+        ks = [toks[i] for i in opkeys(op)]
+        if stats is not None and closed_forks and not stack:
+            stats["observations_on_original_after_fork"] = stats.get("observations_on_original_after_fork", 0) + 1
         if op[0] == "D":
-            f = find()
+            f = find(store, ks)
             if f is not None:
                 out.append("R %d" % f)
             else:
                 store.append((ks, op[1]))
                 out.append("D")
+        elif op[0] == "P":
+            if stats is not None and stack:
+                parent = stack[-1]
+                if find(parent, ks) is not None:
+                    kind = "put_in_fork_on_key_bound_in_original"
+                elif any(len(k0) > len(ks) and same(k0[:len(ks)], ks) for k0, _ in parent):
+                    kind = "put_in_fork_on_strict_prefix_of_original_key"
+                elif any(0 < len(k0) < len(ks) and same(k0, ks[:len(k0)]) for k0, _ in parent):
+                    kind = "put_in_fork_on_extension_of_original_key"
+                else:
+                    kind = "put_in_fork_on_new_key"
+                stats[kind] = stats.get(kind, 0) + 1
+            for n, (k0, v) in enumerate(store):
+                if same(k0, ks):
+                    store[n] = (k0, op[1])
+                    break
+            else:
+                store.append((ks, op[1]))
+            out.append("U")
         elif op[0] == "L":
-            f = find()
+            f = find(store, ks)
             out.append("F -" if f is None else "F %d" % f)
         else:
             # every bound non-empty prefix of the query, as a multiset
@@ -145,8 +195,10 @@ def hist_lines(hist):
     for op in hist:
         if op[0] == "D":
             ls.append("D %d %s" % (op[1], " ".join(map(str, op[2]))))
-        elif op[0] == "Y":
-            ls.append("Y")
+        elif op[0] == "P":   # Put; the line letter is U because P lines declare placeholders of the vocabulary
+            ls.append("U %d %s" % (op[1], " ".join(map(str, op[2]))))
+        elif op[0] in ("Y", "Z"):
+            ls.append(op[0])
         else:
             ls.append("%s %s" % (op[0], " ".join(map(str, op[1]))))
     return ls
@@ -219,8 +271,44 @@ def gen_histories(ck, toks, n_random):
                 h.append(("L", [T[2], c]))
                 h.append(("L", [T[2], a]))
                 hists.append(h)
+    # exhaustive small, forks: every insertion order of every 3-subset of the print-alike pool; then a fork (what
+    # generateGenericContext + the parse of the instantiated body do on the copy) that Puts, on keys of the original,
+    # an equal key / a print-alike but different key / a strict prefix / an extension, and Declares new keys; then,
+    # back on the original, Lookup + Search + Declare of every key the fork touched. Shapes: plain, nested, two in a row.
+    for sub in itertools.combinations(pool, 3):
+        rest = [k for k in pool if k not in sub]
+        for pn, perm in enumerate(itertools.permutations(sub)):
+            other = rest[pn % len(rest)]
+            base = [("D", n + 1, [T[2], k]) for n, k in enumerate(perm)]
+            inner1 = [("P", 51, [T[2], perm[0]]), ("P", 52, [T[2], other]), ("P", 53, [T[2]]), ("P", 54, [T[2], perm[1], T[0]]),
+                      ("D", 55, [T[0], perm[2]]), ("D", 56, [T[2], perm[2]]), ("L", [T[2], perm[0]]), ("L", [T[2], perm[1]])]
+            inner2 = [("P", 61, [T[2], perm[1]]), ("P", 62, [T[2], perm[0]]), ("L", [T[2], perm[0]]), ("D", 63, [T[2], perm[2], T[0]])]
+            touched = [[T[2], k] for k in sub] + [[T[2], other], [T[2]], [T[2], perm[1], T[0]], [T[0], perm[2]], [T[2], perm[2], T[0]]]
+            after = []
+            for k in touched:
+                after.append(("L", k))
+            after.append(("S", [T[2], perm[1], T[0]]))
+            for n, k in enumerate(touched):
+                after.append(("D", 90 + n, k))
+            shape = pn % 3
+            if shape == 0:
+                h = base + [("Y",)] + inner1 + [("Z",)] + after
+            elif shape == 1:    # nested: the inner fork must see the outer fork's Puts, the outer not the inner's
+                h = base + [("Y",)] + inner1[:4] + [("Y",)] + inner2 + [("Z",)] + inner1[4:] + [("Z",)] + after
+            else:               # two forks in a row: the second starts from the original again
+                h = base + [("Y",)] + inner1 + [("Z",), ("L", [T[2], perm[0]]), ("Y",)] + inner2 + [("L", [T[2], other]), ("Z",)] + after
+            hists.append(h)
+    # forks Putting a key that is EQUAL though spelled differently (type alias vs. its target): must not leak either
+    for (a, c) in eqpairs:
+        sibs_pool = [o for o in others if not py_tok_eq(toks[o], toks[a])]
+        for sibs in list(itertools.combinations(sibs_pool, 2))[::3]:
+            for perm in itertools.permutations(list(sibs) + [a]):
+                h = [("D", n + 1, [T[2], k]) for n, k in enumerate(perm)]
+                h += [("Y",), ("P", 70, [T[2], c]), ("L", [T[2], a]), ("P", 71, [T[2]]), ("Z",),
+                      ("L", [T[2], c]), ("L", [T[2], a]), ("L", [T[2]]), ("D", 99, [T[2], c]), ("S", [T[2], a])]
+                hists.append(h)
     n_exh = len(hists)
-    # random structured histories
+    # random structured histories, with forks (nested up to depth 3), Puts inside and after-fork observations
     for _ in range(n_random):
         h = []
         keypool = []
@@ -234,17 +322,44 @@ def gen_histories(ck, toks, n_random):
             keypool.append(k + [rng.choice(P + T)])
             keypool.append(k[:max(1, len(k) - 1)])
         val = 1
-        for _ in range(rng.randint(3, 16)):
+        depth = 0
+        forked = False
+        for _ in range(rng.randint(3, 18)):
             r = rng.random()
             k = rng.choice(keypool)
-            if r < 0.5:
-                h.append(("D", val, k)); val += 1
-            elif r < 0.8:
-                h.append(("L", k))
-            elif r < 0.95:
-                h.append(("S", k + [rng.choice(P + T) for _ in range(rng.randint(0, 2))]))
+            if depth == 0:
+                if r < 0.45:
+                    h.append(("D", val, k)); val += 1
+                elif r < 0.68:
+                    h.append(("L", k))
+                elif r < 0.80:
+                    h.append(("S", k + [rng.choice(P + T) for _ in range(rng.randint(0, 2))]))
+                elif r < 0.83:
+                    h.append(("P", val, k)); val += 1
+                else:
+                    h.append(("Y",)); depth += 1; forked = True
             else:
-                h.append(("Y",))
+                if r < 0.36:
+                    h.append(("P", val, k)); val += 1
+                elif r < 0.50:
+                    h.append(("D", val, k)); val += 1
+                elif r < 0.68:
+                    h.append(("L", k))
+                elif r < 0.76:
+                    h.append(("S", k + [rng.choice(P + T) for _ in range(rng.randint(0, 2))]))
+                elif r < 0.82 and depth < 3:
+                    h.append(("Y",)); depth += 1
+                else:
+                    h.append(("Z",)); depth -= 1
+        if forked and rng.random() < 0.85:   # else: a trailing open fork = "copy and continue on the copy"
+            h += [("Z",)] * depth
+            ks = list(keypool)
+            rng.shuffle(ks)
+            for k in ks[:4]:
+                h.append(("L", k))
+            for k in ks[:2]:
+                h.append(("D", val, k)); val += 1
+            h.append(("S", ks[0] + [rng.choice(P + T)]))
         hists.append(h)
     return hists, n_exh
 
@@ -393,7 +508,7 @@ def main():
     ck.cov["trusted_base"] = vlib.TRUSTED_COMMON + [
         "hook src/parser/verif_export.go (build tag verif) exporting tokenEqual/tokenLess unchanged",
         "placeholder types abstracted to (IsReference, IsList, rank of printed underlying name, identity of underlying); ranks are computed from the real String() values on every run",
-        "Python association list = the property's specification oracle",
+        "Python association list (with a stack of lists for forks) = the property's specification oracle",
     ]
     tt = regen_tokens(b, ck)
     ck.coq()
@@ -448,7 +563,9 @@ def main():
     mod = split_hist(run_tool(model, lines_mod + body))
     ck.count(len(hists))
     ops_total = 0
-    kinds = {"D": 0, "L": 0, "S": 0, "Y": 0}
+    kinds = {"D": 0, "L": 0, "S": 0, "P": 0, "Y": 0, "Z": 0}
+    fork_stats = {}
+    fork_hists = 0
     rejected = 0
     model_mismatch = None
     n_bad_hist = 0
@@ -456,9 +573,10 @@ def main():
         ops_total += len(h)
         for op in h:
             kinds[op[0]] += 1
-        spec = spec_run(toks, h)
+        spec = spec_run(toks, h, fork_stats)
+        fork_hists += any(op[0] == "Y" for op in h)
         rejected += sum(1 for s in spec if isinstance(s, str) and s.startswith("R"))
-        if any(isinstance(s, str) and s.startswith("R") for s in spec) or len({tuple(op[2]) for op in h if op[0] == "D"}) >= 2:
+        if any(isinstance(s, str) and s.startswith("R") for s in spec) or len({tuple(op[2]) for op in h if op[0] in ("D", "P")}) >= 2:
             ck.nontrivial(("h", tuple(map(str, h))))
         if not conforms(spec, impl[idx]):
             n_bad_hist += 1
@@ -469,8 +587,8 @@ def main():
                 return not conforms(spec_run(toks, hh), o)
             small = shrink(toks, h, bad)
             o = split_hist(run_tool(triex, lines_impl + hist_lines(small)))[0]
-            desc = [(op[0], [str(toks[i].get("spec", toks[i].get("lit"))) + ("&" if toks[i].get("ref") else "") for i in (op[2] if op[0] == "D" else op[1] if len(op) > 1 else [])]) for op in small]
-            alike_n = len({toks[i]["spec"] for op in small if len(op) > 1 for i in (op[2] if op[0] == "D" else op[1]) if toks[i]["kind"] == "P"})
+            desc = [(op[0], [str(toks[i].get("spec", toks[i].get("lit"))) + ("&" if toks[i].get("ref") else "") for i in opkeys(op)]) for op in small]
+            alike_n = len({toks[i]["spec"] for op in small for i in opkeys(op) if toks[i]["kind"] == "P"})
             key = "history print-alike=%d ops=%s" % (alike_n, desc)
             ck.violation(key, "alias trie answers %s, association-list specification says %s" % (o, spec_run(toks, small)),
                          dict(vocabulary=vocab_lines(toks), history=hist_lines(small), described=desc, implementation=o, specification=[str(x) for x in spec_run(toks, small)],
@@ -482,9 +600,12 @@ def main():
         ck.broken_obligation("correspondence trie model vs alias_trie fails on history %s: impl %s model %s" % (hist_lines(h), i_o, m_o), "")
     ck.cov.update(dict(
         histories=len(hists), exhaustive_permutation_histories=n_exh, operations=ops_total, op_kinds=kinds, rejected_declarations=rejected,
+        op_kinds_legend="D declare (Contains, then Insert) / L lookup / S search / P put = Insert without Contains (line letter U) / Y fork begin = Copy / Z fork end = back to the original",
+        histories_with_forks=fork_hists, fork_coverage=fork_stats,
         vocabulary=len(toks), predicate_pairs=n * n, exhaustive=False, histories_contradicting_spec=n_bad_hist,
-        rule="histories of Declare/Lookup/Search/Copy over %d tokens (placeholders of 23 types x value/Referenz incl. three Kombinationen printed 'Punkt', aliases, definitions, lists); "
-             "non-trivial = at least two distinct declared keys or a rejected duplicate; distinct by operation sequence; all insertion orders of every %d-subset of the print-alike pool enumerated" % (len(toks), 4 if ck.quick else 5)))
+        rule="histories of Declare/Lookup/Search/Put/Fork(copy, inner history, back to the original; nested) over %d tokens (placeholders of 23 types x value/Referenz incl. three Kombinationen printed 'Punkt', aliases, definitions, lists); "
+             "non-trivial = at least two distinct declared/put keys or a rejected duplicate; distinct by operation sequence; all insertion orders of every %d-subset of the print-alike pool enumerated, "
+             "and of every 3-subset followed by a fork (plain / nested / two in a row) that Puts equal, print-alike, prefix and extension keys and is then observed from the original" % (len(toks), 4 if ck.quick else 5)))
     parser_leg(ck, b)
     if not ck.quick:
         coqchk_all(ck)
